@@ -241,6 +241,9 @@ func (ig *ingest) onEffect(e *Effect) {
 		if e.Config == "" && len(e.Args) == 1 && isNetMsg(e.Args[0]) {
 			// NEW_VIEW acceptance or election; told apart by the message type on the path
 			ev := a.NewEval(e, ig.r)
+			// the once-per-view latch also gates this node's own election: advancing it for a NEW_VIEW that is later
+			// rejected would keep an honest leader from ever being elected (liveness)
+			ev.ExtraProps = []string{"C05"}
 			for _, b := range ev.Find(Truth(T("istype", "interfaces.NewViewMessage", Var("m")))) {
 				if isNetMsg(b["m"]) {
 					ig.ingNV(e, ev, b["m"])
@@ -329,8 +332,8 @@ func (ig *ingest) cacheDelete(e *Effect) {
 			ok = true
 		}
 		why += " without an upper bound test"
-	} else if ev.Same(key, k.SHeight) {
-		ok = true
+	} else if ev.Same(key, k.SHeight) || unfreeze(key).Key() == k.SHeight.Key() {
+		ok = true // the height as read (possibly earlier in the drain: F6.read / F6.delete tie it to the drain's lookup)
 	}
 	ev.Verdict("F3.delete", props("C17"), "cache entries are deleted only below a bound (clear-lower) or at the drained key Read(State.height)", "", ok, why)
 }
@@ -361,7 +364,7 @@ func (ig *ingest) ingPP(e *Effect, m *Term) {
 		return
 	}
 	ev.Require("PP1", props("C08", "C07", safety), "a network proposal is stored only after its signature over its own header verified", kind, k.Verify(H, S))
-	ev.Require("PP2", props("C08", "C04", "C07", safety), "a network proposal is stored only if its sender is the leader of its view", kind, Eq(mid(S), k.LeaderOf(vw(H))))
+	ev.Require("PP2", props("C08", "C04", "C07", "C18", safety), "a network proposal is stored only if its sender is the leader of its view", kind, Eq(mid(S), k.LeaderOf(vw(H))))
 	ev.Require("PP3", props("C08", safety), "a network proposal's signed header is typed PREPREPARE", kind, Eq(mtype(H), k.ProtoConst("LEAN_HELIX_PREPREPARE")))
 	ev.RequireAny("PP4", props("C08", "C10", safety), "no proposal is already stored for (height, view) at the store (kill-aware)", kind,
 		[]*Atom{NotA(Truth(Ext(1, Call("interfaces.GetPreprepareMessage", k.ST, ht(H), vw(H)))))},
@@ -421,7 +424,7 @@ func (ig *ingest) fresh(ev *Eval, rule, kind string, m, H *Term) bool {
 		}
 		missing = strings.Join(miss, "; ")
 	}
-	ev.Verdict(rule, props("C04", "C07", "C15"), "a fresh proposal is stored only after ValidateBlockProposal(ctx of (h,v), h, LeaderOf(v), its block, its hash) succeeded and ctx is still live", kind, ok, missing, guards...)
+	ev.Verdict(rule, props("C04", "C07", "C15", "C11"), "a fresh proposal is stored only after ValidateBlockProposal(ctx of (h,v), h, LeaderOf(v), its block, its hash) succeeded and ctx is still live", kind, ok, missing, guards...)
 	return ok
 }
 
@@ -488,9 +491,9 @@ func (ig *ingest) ingP(e *Effect, m *Term) {
 	k := ig.k
 	ev := ig.a.NewEval(e, ig.r)
 	H, S := hdr(m), snd(m)
-	ev.Require("P1", props("C08", safety), "a network PREPARE is stored only after its signature over its own header verified", "net", k.Verify(H, S))
-	ev.Require("P2", props("C08", "C11", safety), "a network PREPARE is stored only if its sender is a committee member", "net", k.Member(mid(S)))
-	ev.Require("P3", props("C08", "C11", safety), "a network PREPARE's signed header is typed PREPARE", "net", Eq(mtype(H), k.ProtoConst("LEAN_HELIX_PREPARE")))
+	ev.Require("P1", props("C08", "C10", safety), "a network PREPARE is stored only after its signature over its own header verified", "net", k.Verify(H, S))
+	ev.Require("P2", props("C08", "C11", "C10", safety), "a network PREPARE is stored only if its sender is a committee member", "net", k.Member(mid(S)))
+	ev.Require("P3", props("C08", "C11", "C10", safety), "a network PREPARE's signed header is typed PREPARE", "net", Eq(mtype(H), k.ProtoConst("LEAN_HELIX_PREPARE")))
 	ev.Require("P4", props("C08"), "a PREPARE from a view below the current one is ignored", "net", Le(k.SView, vw(H)))
 	ev.Require("P5", props("C08", "C11", "C05"), "a PREPARE from the leader of its view is ignored", "net", Ne(mid(S), k.LeaderOf(vw(H))))
 	ig.exactStaleness(ev, "L7.P", H, []string{Le(k.SView, vw(H)).Key()})
@@ -624,7 +627,7 @@ func (ig *ingest) ingVC(e *Effect, m *Term) {
 	ev.Require("VC3", props("C08", safety), "a VIEW_CHANGE is stored only after its signature over its own header verified", "net", k.Verify(H, S))
 	ev.Require("VC4", props("C08", safety), "a VIEW_CHANGE is stored only if its sender is a committee member", "net", k.Member(mid(S)))
 	ev.Require("VC5", props("C08", safety), "a VIEW_CHANGE's signed header is typed VIEW_CHANGE", "net", Eq(mtype(H), k.ProtoConst("LEAN_HELIX_VIEW_CHANGE")))
-	ig.requireProofValid(ev, "VC6", props("C08", "C09", safety), "net", k.SHeight, vw(H), proofOf(H))
+	ig.requireProofValid(ev, "VC6", props("C08", "C09", "C11", safety), "net", k.SHeight, vw(H), proofOf(H))
 	ig.exactStaleness(ev, "L7.VC", H, []string{Le(k.SView, vw(H)).Key()})
 }
 
@@ -695,7 +698,7 @@ func (ig *ingest) ingNV(e *Effect, ev *Eval, m *Term) {
 	votes := Call("protocol.ViewChangeConfirmationsIterator", H)
 	ev.Require("NV1", props("C07", "C08", "C10"), "a NEW_VIEW for a view below the current one is ignored", "net", Le(k.SView, vw(H)))
 	ev.Require("NV2", props("C07", "C12", safety), "a NEW_VIEW is accepted only after its signature over its own header verified", "net", k.Verify(H, S))
-	ev.Require("NV3", props("C07", "C12", safety), "a NEW_VIEW is accepted only from the leader of its view", "net", Eq(mid(S), k.LeaderOf(vw(H))))
+	ev.Require("NV3", props("C07", "C12", "C18", safety), "a NEW_VIEW is accepted only from the leader of its view", "net", Eq(mid(S), k.LeaderOf(vw(H))))
 	ev.Require("NV4", props("C07", "C08", safety), "a NEW_VIEW's signed header is typed NEW_VIEW", "net", Eq(mtype(H), k.ProtoConst("LEAN_HELIX_NEW_VIEW")))
 	vs := Call("protocol.Sender", bound)
 	vh := Call("protocol.SignedHeader", bound)
@@ -776,7 +779,7 @@ func runProof(a *Analyzer, r *Results) {
 		k := a.Anchors()
 		ev.Require("PR14", props("C08", "C01"), "the references are typed PREPREPARE and PREPARE", "nonempty",
 			Eq(mtype(ppRef), k.ProtoConst("LEAN_HELIX_PREPREPARE")), Eq(mtype(pRef), k.ProtoConst("LEAN_HELIX_PREPARE")))
-		ev.Require("PR15", props("C08"), "both references belong to the same instance", "nonempty", Eq(inst(ppRef), inst(pRef)))
+		ev.Require("PR15", props("C08", "C07", "C04", safety), "both references belong to the same instance", "nonempty", Eq(inst(ppRef), inst(pRef)))
 	})
 	w.AutoSplit = true
 	w.Config = "proof-nonempty"
